@@ -124,6 +124,11 @@ fn rust_expr(rng: &mut StdRng, t: &Term) -> String {
         }
         Term::Bool(b) => format!("{b}"),
         Term::Bytes(b) => format!("vec![{}]", b.iter().map(|x| format!("{x}u8")).collect::<Vec<_>>().join(", ")),
+        // a time of day with a fraction of a second: the date is the whole seconds, on every path
+        Term::Date(d) if *d < 10_000_000_000_000 => {
+            let ms = *pick(rng, &[0u64, 0, 499, 500, 600, 999]);
+            format!("(std::time::UNIX_EPOCH + std::time::Duration::from_millis({}u64))", d * 1000 + ms)
+        }
         Term::Date(d) => format!("(std::time::UNIX_EPOCH + std::time::Duration::from_secs({d}))"),
         Term::Set(s) => format!("[{}].into_iter().collect::<std::collections::BTreeSet<Term>>()", s.iter().map(|x| format!("t({})", rust_str(&term_j(x).to_string()))).collect::<Vec<_>>().join(", ")),
         _ => generic,
